@@ -436,7 +436,17 @@ class DiskFile(VirtualFileContainer):
             if not self.granule_in_use(granule_number):
                 return granule_number
 
+        # The file that is being added does not fit: give back the granules add_file marked while counting
+        self.release_provisional_granules()
         raise VirtualFileValidationError("no free granules available for allocation")
+
+    def release_provisional_granules(self):
+        """
+        Marks the granules that add_file provisionally reserved ($99) as free again.
+        """
+        for granule_number in range(DiskConstants.TOTAL_GRANULES):
+            if self.buffer[DiskConstants.FAT_OFFSET + granule_number] == 0x99:
+                self.buffer[DiskConstants.FAT_OFFSET + granule_number] = 0xFF
 
     @staticmethod
     def calculate_granules_needed(file_data, preamble, postamble):
@@ -709,6 +719,7 @@ class DiskFile(VirtualFileContainer):
         # Check to see if there is a free directory entry to save the file
         directory_entry = self.find_empty_directory_entry()
         if directory_entry == -1:
+            self.release_provisional_granules()
             raise VirtualFileValidationError("No free directory entry to save file")
 
         # Calculate the number of bytes used in the last sector, and the number of sectors in the last granule
